@@ -306,4 +306,29 @@ def rule_comma(ctx):
                   'SnapshotStream comma flag is %s' % alts, loc=s.loc())
 
 
-RULES = [rule_sections_closed, rule_k6, rule_grammar, rule_comma]
+def rule_stream_initial_state(ctx):
+    """A new DeltaStream starts in the announce phase with header, both cursors and the comma flag set; a new
+    SnapshotStream with header and cursor: a phase that starts `None` is skipped together with its separator/footer."""
+    from lib.rules import agg_sites
+    for bn, adt, want in (('http::delta::DeltaStream::new', 'http::delta::DeltaStream',
+                           {'header': 'Option::Some(', 'announce': 'Option::Some(', 'withdraw': 'Option::Some(', 'first': 'const(1)'}),
+                          ('http::delta::SnapshotStream::new', 'http::delta::SnapshotStream',
+                           {'header': 'Option::Some(', 'iter': 'Option::Some('})):
+        b = ctx.body(bn)
+        lits = agg_sites(b, adt)
+        ctx.floor('K5', 'literal in %s' % bn.split('::')[-2], len(lits), 1)
+        for l in lits:
+            rv = l.stmt['rv']
+            for f, pref in want.items():
+                if f not in rv['names']:
+                    ctx.bad('K5', '%s:init:%s' % (bn.split('::')[-2], f), 'field %s is no longer part of %s' % (f, adt))
+                    continue
+                d = describe(b.origin_of_operand(rv['ops'][rv['names'].index(f)]))
+                ctx.check(d.startswith(pref), 'K5', '%s:init:%s' % (bn.split('::')[-2], f),
+                          '%s.%s starts as %s' % (adt.split('::')[-1], f, d[:50]),
+                          '%s::new initialises `%s` with `%s`: the stream can start with that phase already finished, so the list '
+                          'separator / header belonging to it is never written (e.g. a withdraw-only delta puts its items into '
+                          '"announced")' % (adt.split('::')[-1], f, d[:80]), loc=l.loc())
+
+
+RULES = [rule_stream_initial_state, rule_sections_closed, rule_k6, rule_grammar, rule_comma]
